@@ -58,13 +58,33 @@ class CallGen:
         # registered names are case sensitive C identifiers
         name = self.ch.choice(["vf", "vF", "satU", "lowBits"], "fname") + f"{self.uid}_{self.n}"
         kind = ch.weighted([("ret_param", 4), ("ret_cast", 3), ("ret_bin", 3), ("local", 3), ("branch", 3), ("postinc", 4),
-                            ("nested", 4 if self.value_funcs() else 0), ("loop", 2), ("void_write", 2), ("pc_read", 1), ("ext_write_ret", 3)], "fkind")
+                            ("nested", 4 if self.value_funcs() else 0), ("loop", 2), ("void_write", 2), ("pc_read", 1), ("ext_write_ret", 3),
+                            ("ret_const", 2), ("mixed_sign", 2)], "fkind")
         A = self.cfg == "A"
         if kind == "ret_param":
             P = ch.choice(ALL_T, "P")
             R = self.pick(ALL_T, lambda r: not (A and f5b(P, r)), "R")
             body = [("return", ("var", "p"))]
             params = [(P, "p")]
+        elif kind == "ret_const":
+            # a constant expression of a 32 bit type returned through a (possibly wider) return type
+            P = ch.choice(ALL_T, "P")
+            E, expr = ch.choice([(("u", 32), ("not", ("lit", 0, ("u", 32)))), (("u", 32), ("not", ("lit", 0xFF, ("u", 32)))),
+                                 (("u", 32), ("lit", 0xFFFFFFFF, ("u", 32))), (("s", 32), ("neg", ("lit", 1, ("s", 32)))),
+                                 (("u", 32), ("bin", "-", ("lit", 0, ("u", 32)), ("lit", 1, ("u", 32)))),
+                                 (("s", 32), ("not", ("lit", 0, ("s", 32))))], "constexpr")
+            R = self.pick(ALL_T, lambda r: not (A and f5b(E, r)), "R")
+            body = [("return", expr)]
+            params = [(P, "p")]
+        elif kind == "mixed_sign":
+            # an unsigned and a signed parameter of one width
+            W = ch.choice([32, 64], "W")
+            P = ("u", W)
+            params = [(("u", W), "p"), (("s", W), "q")]
+            if ch.chance(1, 2, "mixed-order"):
+                params.reverse()
+            R = self.pick(ALL_T, lambda r: not (A and f5b(("u", W), r)), "R")
+            body = [("return", ("bin", ch.choice(["^", "+", "-"], "op"), ("var", "p"), ("var", "q")))]
         elif kind == "ret_cast":
             P = ch.choice(ALL_T, "P")
             T = ch.choice(ALL_T, "T")          # explicit casts inside the body never widen signed->unsigned
@@ -178,6 +198,21 @@ class CallGen:
         self.order.append(name)
         return f
 
+    def clone_with_other_return_type(self, f):
+        """The same parameters and the same body text under another name and with another return type."""
+        R = f["ret"]
+        if R is None:
+            return None
+        cands = [t for t in ALL_T if t != R and (t[0] == "s" or (R[0] == "u" and t[1] <= R[1]) or self.cfg != "A")]
+        self.n += 1
+        name = self.ch.choice(["vf", "vF", "satU", "lowBits"], "fname") + f"{self.uid}_{self.n}"
+        g = dict(f, name=name, ret=self.ch.choice(cands, "cloneR"))
+        if f["kind"] in ("local", "branch", "loop", "postinc", "nested") and self.cfg == "A":
+            return None         # (locals carry the routine's name in configuration A: the body text would differ)
+        self.funcs[name] = g
+        self.order.append(name)
+        return g
+
     def shuffled(self, params):
         """The packet data need not be the first parameter: any order of (bundle, register operand, value)."""
         if self.ch.chance(1, 3, "param-order-canonical"):
@@ -263,7 +298,8 @@ class CallGen:
         pool = user * 3 + bundled
         form = ch.weighted([("single", 5), ("two_calls", 5), ("parked", 4), ("arg_call", 3), ("three_calls", 2), ("cond_calls", 1),
                             ("const_cond_calls", 2), ("reassign", 3), ("void_call", 4 if voids else 0), ("loop_cond_call", 2),
-                            ("branch_call", 4 if voids else 0), ("two_byref_calls", 3 if voids else 0), ("logic_calls", 3)], "cform")
+                            ("branch_call", 4 if voids else 0), ("two_byref_calls", 3 if voids else 0), ("logic_calls", 3),
+                            ("same_arg", 3 if any(len(f["params"]) == 2 for f in user) else 0)], "cform")
         if force_form == "two_byref_calls" and voids:
             form = force_form
         stmts = []
@@ -367,7 +403,12 @@ class CallGen:
         elif form == "two_byref_calls":
             # two calls that write the same by-reference register operand, as statements of one block: they run in source order
             valued = [x for x in voids if x["ret"] is not None]
-            fs = [ch.choice(valued if valued and ch.chance(2, 3, "valued") else voids, "vf2") for _ in range(2)]
+            # (both value-returning or both void: a parent-less value-returning call is moved in front of the earlier
+            #  statements of its block by the compiler - statement order is C05/C06, not this property - so it never follows
+            #  a void call here)
+            novalue = [x for x in voids if x["ret"] is None]
+            cls = valued if valued and (not novalue or ch.chance(2, 3, "valued")) else novalue
+            fs = [ch.choice(cls, "vf2") for _ in range(2)]
             calls_ = []
             for j, f in enumerate(fs):
                 P = [pt for pt, _ in f["params"] if pt[0] != "ext"][0]
@@ -381,6 +422,19 @@ class CallGen:
                 stmts.append(("if", cond, calls_, [other]))
             outs = [("@RdV", ("s", 32))]
             uses = [f["name"] for f in fs]
+        elif form == "same_arg":
+            # one variable passed for both parameters of a routine (each parameter gets its own conversion)
+            two = [f for f in user if len(f["params"]) == 2]
+            mixed = [f for f in two if f.get("kind") == "mixed_sign"]
+            f = ch.choice(mixed if mixed and ch.chance(2, 3, "mixed") else two, "f")
+            ok_t = [a for a in ALL_T if not (self.cfg == "A" and any(f5a(a, pt) for pt, _ in f["params"]))]
+            A_ = ch.choice(ok_t, "A") if ok_t else f["params"][0][0]
+            v = fresh(0)
+            stmts.append(("decl", A_, v, ("cast", A_, ("reg", "RssV", ("s", 64)))))
+            out = fresh(5)
+            stmts.append(("decl", f["ret"], out, ("call", f["name"], [("var", v), ("var", v)])))
+            outs = [(out, f["ret"])]
+            uses = [f["name"]]
         elif form == "logic_calls":
             # !, && and || applied directly to call results (int 0/1 in C), then the same routine's result where a
             # conversion is needed
